@@ -42,6 +42,7 @@ def dim_seed(t):
 
 def run(ctx):
     repo = ctx.repo
+    rules.borrow(ctx, "C12", funcs=["forsys.time_series.TimeSeries.get_point_id_by_map", "forsys.time_series.TimeSeries.create_mapping"], minimum=10, because="the tracked successor / predecessor is read through the mapping, inverted for the backward step")
     # ------------------------------------------------------------------ calculate_velocity
     f = repo.func(f"{TS}.calculate_velocity")
     ctx.touch(f)
